@@ -213,6 +213,7 @@ def run(ctx):
     r.floor(rule2, 'decoder_instances_checked', n2, 150)
     mask_agreement(ctx)
     tag_agreement(ctx)
+    variant_type_ids(ctx)
     r.floor('tag-agreement', 'tag_layouts', r.counts.get('tag_layouts', 0), 12)
     r.floor('mask-agreement', 'mask_combinations', r.counts.get('mask_combinations', 0), 192)
     # (c) Variant::decode: the empty-array path looks at the dimensions bit
@@ -492,3 +493,67 @@ def tag_agreement(ctx, rule='tag-agreement'):
 def stable(body, lit):
     s = fmt_lit(body, lit)
     return re.sub(r'\(_\d+\)', '', s)
+
+
+def variant_type_ids(ctx, rule='variant-type-id-agreement'):
+    """the built-in type id a Variant is encoded with (VariantTypeId::encoding_mask) and the Variant variant
+    decode_variant_value builds under that id must be the same variant - read from the match arms of encoding_mask, the
+    flag tests that dominate each construction in decode_variant_value, and the variant each `From<T> for Variant` builds"""
+    from ..tables import match_table
+    r, db = ctx.r, ctx.db
+    eb = db.body('types::variant_type_id::VariantTypeId::encoding_mask')
+    dbs = db.find_bodies(r'^types::variant::Variant::decode_variant_value$')
+    if eb is None or not dbs:
+        r.lost(rule, 'functions', 'VariantTypeId::encoding_mask / Variant::decode_variant_value not found'); return
+    enc = {}
+    for v, val in (match_table(ctx, eb, enum_suffix='VariantTypeId') or {}).items():
+        try:
+            enc[int(val)] = v
+        except (TypeError, ValueError):
+            pass
+    b = dbs[0]; F = ctx.facts(b)
+    def flag_at(bb, si=None):
+        ks = []
+        for l, e in (F.literals_at(bb, si) if si is not None else F.literals_at(bb)):
+            if l[0] == 'truth' and l[2] is True and l[1][0] == 'call' and l[1][1].endswith('test_encoding_flag') and len(l[1][2]) == 2:
+                k = F.const_int(l[1][2][1])
+                if k is not None:
+                    ks.append(k)
+        return ks[-1] if ks else None
+    built = {}
+    def from_variant(c):
+        fb = db.find_bodies('^' + re.escape(c.callee_full) + '$')
+        for x in fb:
+            for blk in x.blocks:
+                for st in blk['s']:
+                    if st[0] == '=' and st[2][0] == 'agg' and st[2][1] == 'adt' and str(st[2][2]).endswith('variant::Variant'):
+                        return st[2][3]
+        return None
+    for c in b.calls():
+        if re.match(r'^<types::variant::Variant as std::convert::From<.*>>::from$', c.callee_full):
+            k = flag_at(c.bb)
+            if k is not None:
+                built.setdefault(k, set()).add(from_variant(c) or '?')
+    for bi, blk in enumerate(b.blocks):
+        if blk['c']:
+            continue
+        for si, st in enumerate(blk['s']):
+            if st[0] == '=' and st[2][0] == 'agg' and st[2][1] == 'adt' and str(st[2][2]).endswith('variant::Variant') and st[2][3] != 'Empty':
+                k = flag_at(bi, si)
+                if k is not None:
+                    built.setdefault(k, set()).add(st[2][3])
+    if len(enc) < 20 or len(built) < 20:
+        r.lost(rule, 'tables', 'type id tables not recognised (encode %d rows, decode %d rows)' % (len(enc), len(built))); return
+    bad = []
+    for k, vs in sorted(built.items()):
+        if vs != {enc.get(k)}:
+            bad.append('type id %d is written for Variant::%s but decoded as %s' % (k, enc.get(k), '/'.join(sorted(vs))))
+    for k, v in enc.items():
+        if k != 0 and k not in built:
+            bad.append('type id %d (Variant::%s) has no decoding arm' % (k, v))
+    r.count('variant_type_ids', len(built))
+    if bad:
+        r.fail(rule, 'Variant', 'Variant encode / decode disagree on a built-in type id: ' + '; '.join(bad[:3]), loc=b.loc)
+    else:
+        r.ok(rule, 'Variant', 'all %d built-in type ids decode to the variant they are written for' % len(built), loc=b.loc)
+    r.floor(rule, 'variant_type_ids', len(built), 24)
